@@ -385,14 +385,5 @@ def pairwise_unique(ctx, c):
 
 
 def check_ovf(ctx):
-    import os
-    import re
-    from ..extract import REPO
-    try:
-        txt = open(os.path.join(REPO, "Cargo.toml")).read()
-    except OSError:
-        txt = ""
-    m = re.search(r"\[profile\.release\](.*?)(\n\[|\Z)", txt, re.S)
-    ok = bool(m and re.search(r"^\s*overflow-checks\s*=\s*true", m.group(1), re.M))
-    ctx.ob("A-OVF", "Cargo.toml [profile.release] overflow-checks", ok,
-           detail="overflow-checks = true missing from [profile.release]: primitive +,-,* would wrap silently", trivial=True)
+    from ..idioms import check_overflow_profile
+    check_overflow_profile(ctx)
